@@ -341,6 +341,10 @@ def section8():
         'C02': 'targeted IK starts: the start is the solution and the goal is displaced along one basis twist by 3× / 0.5× the tolerance, all six components, both solvers',
         'C13': 'rpy drawn with 35% probability from the angles URDF authors write (quarter turns, values that cancel, repeat or vanish)',
         'C06': 'histories include `restoreOriginalEE` after a tool change (and a move after it)',
+        'C03b': 'after every step ALL objects of the store are examined, not only the target of the operation: a bystander whose matrix or six-vector changed is a broken frame condition (the model changes the target only) and must still be coherent',
+        'C05b': 'arms get asymmetric random joint limits (|lower| != upper) instead of the symmetric +-2pi of the test arm, and histories include `FKedge` requests that leave the limits through ONE joint on ONE side by 1e-3..0.5',
+        'C10b': 'a quarter of the histories start with a scripted prefix (scipy FK mode, IK to a mirrored pose with legs in range, FK of the current lengths) that reaches the inverted-plate repair branch of FK',
+        'C19b': 'the loopback run on real UDP sockets became a short random send/poll history over two hops (sink + forward): each datagram delivered once, an empty poll after earlier receives is silent',
         'C11': 'small platforms placed up to 12 from the origin so that cond(invJ) reaches 1e3..1e4 (the upper part of the property\'s range)',
     }
     for d in sorted(glob.glob(os.path.join(V, 'seeded', '*', 'meta.json'))):
